@@ -1,0 +1,61 @@
+//go:build verif
+
+package lossless
+
+// Verification hook for property C11 (see internal/verifhook/poison_on.go).
+
+import "github.com/deepteams/webp/internal/verifhook"
+
+// VerifPoisonPools overwrites the fields named in scratch["Encoder"] / scratch["Decoder"]
+// of the pooled lossless encoders / decoders with garbage and puts them back.  It
+// returns "Type.field" → number of objects poisoned, the number of objects per type,
+// and the names that are not fields.
+func VerifPoisonPools(scratch map[string][]string) (poisoned map[string]int, objects map[string]int, missing []string) {
+	poisoned, objects = map[string]int{}, map[string]int{}
+	note := func(typ string, done, miss []string) {
+		objects[typ]++
+		for _, f := range done {
+			poisoned[typ+"."+f]++
+		}
+		for _, f := range miss {
+			name := typ + "." + f
+			dup := false
+			for _, m := range missing {
+				dup = dup || m == name
+			}
+			if !dup {
+				missing = append(missing, name)
+			}
+		}
+	}
+	// losslessEncoderPool has a New function: Get never returns nil.  An encoder that
+	// has never been used carries no buffers; stop at the first such object.
+	var encs []*Encoder
+	for len(encs) < 16 {
+		enc := losslessEncoderPool.Get().(*Encoder)
+		encs = append(encs, enc)
+		if enc.hashChain == nil && enc.writerBuf == nil && enc.bestRefs == nil {
+			break
+		}
+		d, m := verifhook.PoisonFields(enc, scratch["Encoder"])
+		note("Encoder", d, m)
+	}
+	for _, enc := range encs {
+		losslessEncoderPool.Put(enc)
+	}
+	var decs []*Decoder
+	for len(decs) < 64 {
+		v := losslessDecoderPool.Get()
+		if v == nil {
+			break
+		}
+		dec := v.(*Decoder)
+		d, m := verifhook.PoisonFields(dec, scratch["Decoder"])
+		note("Decoder", d, m)
+		decs = append(decs, dec)
+	}
+	for _, dec := range decs {
+		losslessDecoderPool.Put(dec)
+	}
+	return
+}
